@@ -42,17 +42,17 @@ pub const EXCLUSIONS: &[(&str, bool)] = &[
     // toFixed(d), 0 < |x| < 2^-43 and d >= 9 * (leading all-zero 9-digit blocks known to ryu-js): garbage leading digits
     ("tofixed-small", true),
     // parseInt, radix in {2,4,8,10,16,32}, value > 2^53 reached through the f64 accumulation path
-    ("parseint-big-exact-radix", true),
+    ("parseint-big-exact-radix", false),
     // Number("0x..."/"0o..."/"0b...") with a value >= 2^53 (f64 accumulation)
     ("number-nondecimal-big", true),
     // Number("-inf"), Number("+INFINITY") ...: fast_float2 spellings of infinity
-    ("number-signed-inf-word", true),
+    ("number-signed-inf-word", false),
     // Number("0x+1"): sign accepted after a radix prefix
-    ("number-nondecimal-plus", true),
+    ("number-nondecimal-plus", false),
     // toString(radix), radix not a power of two, |x| < 1/radix or |x| > 2^53: error accumulates beyond 1 ulp
     ("tostring-radix-drift", true),
     // 0b1e5, 0o7e1, 017e1 in source text: exponent part accepted after a non-decimal literal
-    ("literal-nondecimal-exponent", true),
+    ("literal-nondecimal-exponent", false),
 ];
 
 fn exclusions() -> Vec<&'static str> {
